@@ -321,6 +321,28 @@ def extract(tree):
     if not m:
         raise ExtractError("janet_in on fibers: last_value shape changed")
 
+    # writes to the RUNNING fiber's environment pointer (`janet_vm.fiber->env = …`), all of src/core: each must be the
+    # allocate-when-NULL idiom mirrored by Fiber/Model.lean ensureEnv (the premise of `denv_never_reassigned`); the one
+    # known other site is the `compile` cfunction (`if (NULL == env) { env = janet_table(0); janet_vm.fiber->env = env; }`: also only
+    # when the fiber has none).  Outside the model: fiber/setenv and fiber/new's explicit env argument, which assign
+    # `fiber->env` of their OPERAND — the theorem is about the instruction set of the model (setdyn / dyn / fiber/new letters)
+    import os as _os2
+    env_alloc, env_other, env_by_file = 0, [], {}
+    for fn in sorted(_os2.listdir(_os2.path.join(tree, "src/core"))):
+        if not fn.endswith(".c"):
+            continue
+        txt = _norm(csrc.strip_comments(csrc.read(tree, "src/core/" + fn)))
+        for mm in re.finditer(r"janet_vm\.fiber->env = ([^;]*);", txt):
+            pre = txt[max(0, mm.start() - 40):mm.start()]
+            if re.search(r"if \(!janet_vm\.fiber->env\) \{? ?$", pre) and re.fullmatch(r"janet_table\(\d+\)", mm.group(1)):
+                env_alloc += 1
+                env_by_file[fn] = env_by_file.get(fn, 0) + 1
+            else:
+                env_other.append("%s: janet_vm.fiber->env = %s" % (fn, mm.group(1)))
+    if env_other != ["compile.c: janet_vm.fiber->env = env"]:
+        raise ExtractError("the running fiber's env is assigned outside the allocate-when-NULL idiom: %r" % env_other)
+    if (env_by_file.get("capi.c"), env_by_file.get("corelib.c"), env_by_file.get("fiber.c")) != (1, 1, 2):
+        raise ExtractError("allocate-when-NULL sites of janet_vm.fiber->env changed: %r (expected capi.c janet_setdyn 1, corelib.c setdyn 1, fiber.c letters i / p 2)" % env_by_file)
     cl = csrc.strip_comments(csrc.read(tree, "src/core/corelib.c"))
     m = re.search(r"int32_t s = janet_unwrap_integer\(argv\[0\]\);\s*if \(s < 0 \|\| s > (\d+)\) \{.*?\}\s*janet_signalv\((JANET_SIGNAL_\w+) \+ s, payload\);", cl, re.S)
     if not m:
@@ -329,7 +351,7 @@ def extract(tree):
     return dict(sig=sig, stat=stat, signames=signames, statnames=statnames, env=env, usern=usern, default_mask=default_mask,
                 letters=letters, envmodes=envmodes, refuse=refuse, cancel_sig=cancel_sig, prop_max=prop_max, next_nil=next_nil,
                 next_skip=next_skip, user_max=user_max, user_base=user_base, walk_guarded=walk_guarded, stale_cleared=stale_cleared, chain_alive=chain_alive, prop_refuses_dead=prop_refuses_dead, first_uses_arity=first_uses_arity, new_max_min_arity=new_max_min_arity,
-                guard_after=guard_after, recursion_guard=recursion_guard)
+                guard_after=guard_after, recursion_guard=recursion_guard, env_alloc=env_alloc)
 
 
 def render(tree):
@@ -388,5 +410,7 @@ def render(tree):
     o.append("/-- janet_check_can_resume tests the recursion guard AFTER the root and status refusals (true), so that the guard's\n"
              "    `janet_fiber_set_status(fiber, JANET_STATUS_ERROR)` only ever hits a fiber that could otherwise be resumed -/")
     o.append("abbrev guardAfterRefusals : Bool := %s" % ("true" if x["guard_after"] else "false"))
+    o.append("/-- `janet_vm.fiber->env = janet_table(n)` sites in src/core, every one guarded by `if (!janet_vm.fiber->env)` (ensureEnv) -/")
+    o.append("abbrev envAllocWhenNullSites : Nat := %d" % x["env_alloc"])
     o.append("\nend JanetModel.Gen.Fiber\n")
     return "\n".join(o)
